@@ -371,10 +371,12 @@ func moveOutArrayDir(w *bytes.Buffer, value json.RawMessage,
 	if _, err := w.WriteString("[\n"); err != nil {
 		return err
 	}
+	// For multi-dimensional arrays, the elements are themselves arrays.
+	elem := lookup.GetArray(t.Elem, t.Dim-1)
 	p := syntax.StructMember{
-		Tname: t.Elem.TypeId(),
+		Tname: elem.TypeId(),
 	}
-	p.CacheIsFile(t.Elem)
+	p.CacheIsFile(elem)
 	width := util.WidthForInt(len(valueArr))
 	var errs syntax.ErrorList
 	for i, v := range valueArr {
@@ -387,7 +389,7 @@ func moveOutArrayDir(w *bytes.Buffer, value json.RawMessage,
 		p.Id = k
 		if err := moveOutFiles(w,
 			&p,
-			t.Elem.IsFile(),
+			elem.IsFile(),
 			v,
 			lookup,
 			pipestancePath,
@@ -830,10 +832,12 @@ func printOutArrayDir(w *bytes.Buffer, value json.RawMessage,
 	}
 	width := util.WidthForInt(len(valueArr))
 	newIndent := makeNewIndent(indent, width)
+	// For multi-dimensional arrays, the elements are themselves arrays.
+	elem := lookup.GetArray(t.Elem, t.Dim-1)
 	p := syntax.StructMember{
-		Tname: t.Elem.TypeId(),
+		Tname: elem.TypeId(),
 	}
-	p.CacheIsFile(t.Elem)
+	p.CacheIsFile(elem)
 	var errs syntax.ErrorList
 	for i, v := range valueArr {
 		if _, err := w.Write(newIndent); err != nil {
@@ -849,7 +853,7 @@ func printOutArrayDir(w *bytes.Buffer, value json.RawMessage,
 		p.Id = k
 		if err := printOutParam(w,
 			&p,
-			t.Elem.IsFile(),
+			elem.IsFile(),
 			v,
 			lookup,
 			newIndent[:1], newIndent); err != nil {
